@@ -67,6 +67,10 @@ def build_harness(race=False):
     if race:
         env["CGO_ENABLED"] = "1"
         cmd.append("-race")
+    if os.environ.get("VERIF_COVER"):
+        # development aid (not used by registered commands): statement coverage of /repo under the checks;
+        # run with GOCOVERDIR set, then `go tool covdata textfmt`
+        cmd += ["-cover", "-coverpkg=github.com/GuanceCloud/platypus/...,verifh/..."]
     cmd.append("./cmd/vh")
     t0 = time.time()
     r = subprocess.run(cmd, cwd=h, env=env, capture_output=True, text=True)
